@@ -24,7 +24,7 @@ EXPLANATION = ('Preservation obligations of the attachment forest, checked at ea
                'an abstract heap (exact write sets per path), must-pass / guard rules for the detach paths of freeSlot and PUT_COPY, '
                'who-may-write on the three link fields, and the base-chain rebuild at finalisation.  The forest property itself under '
                'arbitrary rule sequences is an induction over these steps and is not mechanised.')
-FLOORS = {'TREEWRITERS': 5, 'ATTACH': 6, 'LISTOPS': 9, 'DETACH': 9, 'BASECHAIN': 3}
+FLOORS = {'TREEWRITERS': 5, 'ATTACH': 6, 'LISTOPS': 9, 'DETACH': 11, 'BASECHAIN': 3}
 
 
 def treewriters(run, fx):
@@ -540,6 +540,51 @@ def basechain_exec(run, fx, maxn=5):
     return cases, None
 
 
+def garbage_after_action(run, rule='DETACH'):
+    """a rule action that deletes slots is followed by SlotMap::collectGarbage on EVERY path out of Pass::findNDoRule -- in the plain
+    branch and in the branch that writes the debug trace (compiled unless GRAPHITE2_NTRACING is defined, taken while gr_start_logging
+    is active): the only ways past a doAction() call to the function's exit without collectGarbage are the false arm of the
+    `action->deletes()` test and the arm for an action that stopped the machine (gr_make_seg then returns no segment).  Deleted slots that are not collected stay linked as parent / child of live slots."""
+    for cfg in ('Q0', 'tracepass'):
+        fx = run.facts(cfg)
+        fn = fx.one('graphite2::Pass::findNDoRule')
+        acts = calls_in(fn, 'graphite2::Pass::doAction')
+        gcs = set(fn.block_of[e['i']] for e in calls_in(fn, 'graphite2::SlotMap::collectGarbage'))
+        want = 2 if cfg == 'tracepass' else 1
+        inst = '[%s] collectGarbage after every rule action' % cfg
+        if len(acts) < want:
+            run.broken(rule, inst, 'expected %d doAction call(s) in Pass::findNDoRule, found %d' % (want, len(acts)), fn.where())
+            continue
+        nodel = set(dom.edges_with(fn, lambda f: 'deletes()' in f[0] and f[1] == '==' and f[2] == '0'))
+        # an action that stopped the machine (status != finished) fails the whole gr_make_seg: no segment is returned
+        nodel |= set(dom.edges_with(fn, lambda f: 'status()' in f[0] and f[1] == '!=' and f[2] == '0'))
+        bad = None
+        for a in acts:
+            ba = fn.block_of[a['i']]
+            if ba in gcs and any(fn.pos_of[e['i']] > fn.pos_of[a['i']] for e in calls_in(fn, 'graphite2::SlotMap::collectGarbage') if fn.block_of[e['i']] == ba):
+                continue
+            seen, st = set(), [(ba, idx) for idx in range(len(fn.blocks[ba]['succ']))]
+            while st:
+                b, idx = st.pop()
+                if (b, idx) in nodel:
+                    continue
+                s_ = fn.blocks[b]['succ'][idx]
+                if s_ is None or s_ in seen or s_ in gcs:
+                    continue
+                seen.add(s_)
+                if s_ == fn.exit:
+                    bad = a
+                    break
+                st.extend((s_, j) for j in range(len(fn.blocks[s_]['succ'])))
+            if bad:
+                break
+        if bad:
+            run.violated(rule, inst, fn.loc(bad), 'after the rule action at line %s a path reaches the end of Pass::findNDoRule without SlotMap::collectGarbage although the action may delete slots: '
+                         'the deleted slots are never handed to Segment::freeSlot and stay in the attachment tree of the slots that remain' % bad['ln'])
+        else:
+            run.held(rule, inst, fn.where(), '%d doAction call(s), each followed by collectGarbage unless deletes() is false' % len(acts))
+
+
 def garbage_sees_deleted(run, fx, rule='DETACH'):
     """a deleted slot leaves its parent's child chain in Segment::freeSlot, and SlotMap::collectGarbage reaches freeSlot only for the
     slots it finds in the slot map.  TEMP_COPY replaces a rule slot's map entry by a scratch copy, so no TEMP_COPY may be inserted for
@@ -588,6 +633,7 @@ def run(run):
     vm = R.get_vm(run)
     fx = vm.fx
     garbage_sees_deleted(run, fx)
+    garbage_after_action(run)
     treewriters(run, fx)
     attach(run, fx)
     childreg(run, fx, vm)
